@@ -45,7 +45,7 @@ ASSUMPTIONS = [
     "exact stratum preservation is asserted for replacement sampling only (single-pass is documented not to guarantee counts); under single-pass + by_label the easy strata must be exact",
 ]
 PROBES = [
-    "from_labels_source", "sample_of_sample", "documented_error", "extreme_class_draw", "extreme_easy_draw", "single_pass_binomial", "single_pass_poisson", "dynamic_to_single_pass",
+    "unsigned_scores", "from_labels_source", "sample_of_sample", "documented_error", "extreme_class_draw", "extreme_easy_draw", "single_pass_binomial", "single_pass_poisson", "dynamic_to_single_pass",
     "dynamic_to_replacement", "empty_class_source", "smoothing", "proportion", "callable", "ties_in_source",
     "int_scores", "easy_samples", "presorted_source",
 ]
@@ -119,8 +119,14 @@ def gen_source(rnd, size_class, allow_empty):
     if spec["dtype"] == "int64":
         spec["pos"] = [int(v) for v in spec["pos"]]
         spec["neg"] = [int(v) for v in spec["neg"]]
-        if rnd.random() < 0.25:
+        r_dt = rnd.random()
+        if r_dt < 0.2:
             spec["dtype"] = "int32"
+        elif r_dt < 0.45:
+            # unsigned scores (e.g. 8-bit match scores): arithmetic on them wraps around instead of going negative
+            spec["dtype"] = rnd.choice(["uint8", "uint16", "uint64"])
+            spec["pos"] = [abs(v) + rnd.choice([0, 0, 100]) for v in spec["pos"]]
+            spec["neg"] = [abs(v) + rnd.choice([0, 0, 100]) for v in spec["neg"]]
     elif rnd.random() < 0.06:
         # single-precision scores (values chosen exactly representable so that the scenario round-trips)
         spec["dtype"] = "float32"
@@ -370,8 +376,10 @@ def execute(scn, ctx):
             probe("empty_class_source")
         if len(np.unique(o.pos)) < len(o.pos) or len(np.unique(o.neg)) < len(o.neg):
             probe("ties_in_source")
-        if o.pos.dtype.kind == "i":
+        if o.pos.dtype.kind in "iu":
             probe("int_scores")
+        if o.pos.dtype.kind == "u":
+            probe("unsigned_scores")
         if spec.get("via") == "from_labels":
             probe("from_labels_source")
         if o.nb_easy_pos or o.nb_easy_neg:
